@@ -17,7 +17,7 @@ TECHNIQUE = "exhaustive enumeration of all 4 MiB ROM offsets x 3 modes (differen
 RULE = (
     "every ROM offset 0..0x3FFFFF x {low_rom, low_rom_2, high_rom} (thorough: all 12.6 M; quick: every 32K/64K boundary +-2 and a "
     "stride-257 sweep): rom_to_snes == textbook address; Bus.get_address(that).physical == offset wherever the assembler's bus maps it "
-    "as ROM; snes_to_rom(rom_to_snes(o)) == o (low_rom_2 only below 0x200000).  Pointer formulas on boundary (base, p) pairs and all "
+    "as ROM (the built-in buses, and a fresh Program set to the mode after a .map program ran in the same process); snes_to_rom(rom_to_snes(o)) == o (low_rom_2 only below 0x200000).  Pointer formulas on boundary (base, p) pairs and all "
     "65536 two-byte values.  Non-trivial = offset within 2 of a 32 KiB boundary, or a bank >= 0x70 (beyond the LoROM bus map), or a "
     "pointer pair whose sum crosses a bank; distinct by construction (enumeration) / case hash (Hypothesis)."
 )
@@ -98,6 +98,8 @@ def enum_units(tier, seed):
         else:
             for lo in range(0, 0x400000, 0x40000):
                 units.append({"t": "edges", "mode": mode, "lo": lo, "hi": lo + 0x40000, "seed": seed})
+    for mode in MODES:
+        units.append({"t": "via-program", "mode": mode, "seed": seed})
     units.append({"t": "ptr16"})
     units.append({"t": "ptr24"})
     return {"units": units, "exhaustive": tier == "thorough"}
@@ -180,6 +182,33 @@ def run_case(case) -> Outcome:
             RomType, r2s, s2r = fns
             out.sample = {"mode": mode, "offset": f"{o:#x}", "rom_to_snes": f"{r2s(o, driver.rom_type(mode)):#x}",
                           "textbook": f"{busmodel.rom_to_snes(o, mode):#x}", "offsets_in_unit": len(offs)}
+        return out
+    if t == "via-program":
+        # "the mapping the assembler uses" taken from an assembler instance: a fresh Program set to this mode, created
+        # after other programs (one of them with its own .map) were assembled in this process
+        from a816.program import Program
+
+        mode = case["mode"]
+        fns = _funcs()
+        _, r2s, _ = fns
+        driver.assemble_mem(".map identifier=1 bank_range=0x00, 0x3f addr_range=0x8000, 0xffff mask=0x8000 mirror_bank_range=0x80, 0xbf\n*=0x018000\n.db 1\n")
+        driver.assemble_mem("*=0xC08000\n.db 1\n", rom="high")
+        prog = Program()
+        prog.set_mapping(mode)
+        offs = sorted({b + d for b in range(0, 0x400001, 0x8000) for d in (-1, 0, 1) if 0 <= b + d < 0x400000} | set(range((case["seed"] * 131) % 4099, 0x400000, 4099)))
+        for o in offs:
+            a = busmodel.rom_to_snes(o, mode)
+            try:
+                phys = prog.get_physical_address(r2s(o, driver.rom_type(mode)))
+            except Exception as e:
+                phys = type(e).__name__
+            if phys != o and not (mode == "low" and busmodel.lorom().kind(a) != "rom"):
+                out.bad(f"program-bus:{mode}", {"t": "via-program", "mode": mode, "seed": case["seed"]},
+                        f"{mode}: a Program set to this mapping translates rom_to_snes({o:#x})={a:#x} to {phys}, not back to the offset")
+                break
+        out.evals, out.nontrivial = len(offs), len(offs)
+        out.labels = [f"via-program:{mode}"]
+        out.sample = {"mode": mode, "offsets": len(offs), "history": "a .map program and a HiROM program assembled first"}
         return out
     if t == "ptr16":
         n = 0
